@@ -25,7 +25,7 @@ func init() {
 func init() {
 	register(&propSpec{
 		ID:         "C02",
-		Rules:      []func(*Ctx){ruleR02a, ruleR02b, ruleR02c, ruleR02d, ruleR02e, ruleR02g, ruleR02h},
+		Rules:      []func(*Ctx){ruleR02a, ruleR02b, ruleR02c, ruleR02d, ruleR02e, ruleR02g, ruleR02h, ruleR02i},
 		Explain:    "R02a: push/pop pairing of the renderer's scope in every soyhtml function (go/cfg dataflow over relative depth, raising paths exempt); R02b: every AST field the parser fills from a command body (derived from parse, not listed) is walked inside its own frame, or the *ast.ListNode case brackets its elements; R02c: scope-frame typestate (set only on renderer-allocated frames, new states only get entered scopes, capped data=\"all\" view); R02d: the loop helper functions look up exactly the key suffixes the loop sets. R02e/R02f: a called template is walked on a newly built state and every {param} kind binds its key on every non-raising path; R02g: a command-body field is only handed to the tree walker or compared with nil, never taken apart by hand; R02h: every state built for a template sets the fields the entry state sets.",
 		NotDecided: "the rendered text of each command; call-name resolution through namespace/alias; header-param folding.",
 		Assumes:    []string{"go/cfg control flow; no-return functions inferred from the source (panic closure)"},
@@ -128,7 +128,7 @@ func init() {
 func init() {
 	register(&propSpec{
 		ID:         "C07",
-		Rules:      []func(*Ctx){ruleR07a, ruleR07b, ruleR07c, ruleR07d, ruleR07e, func(c *Ctx) { ruleBlocks(c, "R07c-blocks", "soyhtml", 8) }},
+		Rules:      []func(*Ctx){ruleR07a, ruleR07b, ruleR07c, ruleR07d, ruleR07e, ruleR07f, ruleR07g, func(c *Ctx) { ruleBlocks(c, "R07c-blocks", "soyhtml", 8) }},
 		Explain:    "R07a: on every success path Compile has parsed and registered every file and run CheckDataRefs, SetGlobals and ProcessMessages, and honours each error (go/cfg must-pass + SSA error discipline); R07b: the node kinds that bind a name agree between the compile-time checker, the Go renderer and the JavaScript generator, and data references are checked; R07c: every node-typed field of every AST node type is returned by its Children(), so no reference escapes the tree passes; the interpreter ends a {let} at least as early as the checker assumes (block frames); R07d: the one-declaration-mechanism test precedes recording a template. R07e: the checker brings a binder into scope exactly where the language does (a {let} after its own definition, a loop variable for the loop body only).",
 		NotDecided: "that acceptance is exact for every program: the checker's own algorithm (shadowing, data=\"all\" expansion, required params) is value-level and not decided.",
 		Assumes:    []string{"go/cfg control flow", "the tree passes visit exactly what Children() returns"},
@@ -175,7 +175,7 @@ func init() {
 	})
 	register(&propSpec{
 		ID:         "C20",
-		Rules:      []func(*Ctx){ruleR20a, ruleR20b, ruleR20c, ruleR20d, ruleR20f},
+		Rules:      []func(*Ctx){ruleR20a, ruleR20b, ruleR20c, ruleR20d, ruleR20f, ruleR20g},
 		Explain:    "R20a: no comparison against math.NaN(); R20b: the pairs of value kinds that Equals can accept form a symmetric relation that includes Int~Float; R20c: the reflect-kind switch of the conversion covers every kind the statement lists, unwraps pointers/interfaces, returns on nil before use, recognises time.Time before structs and nil slices before indexing; R20d: each Truthy is a single expression over the receiver and, evaluated on sample constants, follows the language table (null, false, 0, 0.0, NaN, \"\" falsy). R20f: the cross-kind arms of Int.Equals and Float.Equals compare both values as float64.",
 		NotDecided: "scalar fidelity of the conversion, idempotence, lowerCamel field names, equality of values (only the acceptance relation is decided), printing.",
 		Assumes:    []string{"the language's truthiness table in the checker"},
